@@ -669,10 +669,24 @@ int vnadata_convert(const vnadata_t *vdp_in, vnadata_t *vdp_out,
      * change the dimensions to a row vector.
      */
     if (vdp_in == vdp_out && (group & CONV_MASK) == CONV_xtoI) {
+	int old_cells = vdp_out->vd_rows * vdp_out->vd_columns;
+	int new_cells;
+
 	if (vdp_out->vd_rows < vdp_out->vd_columns) {
 	    vdp_out->vd_columns = vdp_out->vd_rows;
 	}
 	vdp_out->vd_rows = vdp_out->vd_columns > 0 ? 1 : 0;
+
+	/*
+	 * Zero the vacated matrix cells as vnadata_resize does.
+	 */
+	new_cells = vdp_out->vd_rows * vdp_out->vd_columns;
+	if (new_cells < old_cells) {
+	    for (int findex = 0; findex < vdp_out->vd_frequencies; ++findex) {
+		(void)memset((void *)&vdp_out->vd_data[findex][new_cells], 0,
+			(old_cells - new_cells) * sizeof(double complex));
+	    }
+	}
     }
     return 0;
 }
